@@ -592,6 +592,8 @@ def tags(case, impl, model):
     m = (model or {}).get("out") or {}
     if "inFrag" in m:
         out.append("proved-fragment(class_round_trip_partial | _extras_partial | _none_attrs_partial):" + str(bool(m["inFrag"] or m.get("inFragExtras") or m.get("inFragNone"))))
+    if "docStable" in m:
+        out.append("serialized-document-has-string-keys-only(class_text_round_trip_partial):" + str(m["docStable"]))
     if "exactDecl" in m:
         out.append("proved-fragment(deserialize_exact_partial):" + str(m["exactDecl"]))
     out.append("model-scope:" + str(in_model_scope(case["cls"])))
